@@ -135,6 +135,21 @@ def parse_progs(strs):
                     body = "".join(rng.choice(digs[:radix]) for _ in range(L))
                     body = (digs[1] if body[0] == "0" else body[0]) + body[1:]
                     progs.append(("parseInt", WRAP % ("parseInt(%s, %d)" % (json.dumps(lead + body), radix))))
+    # rounding decided by a digit far to the right: in the radixes where the result must be the correctly rounded double (powers of two,
+    # and 10) a run of 54 significant bits followed by k zero digits and one last non-zero digit is just above a halfway point
+    for radix, bits in ((2, 1), (4, 2), (8, 3), (16, 4), (32, 5)):
+        for k in (10, 100, 399, 400, 401, 450, 1000, 5000):
+            head = "1" + "0" * 52 + "1"          # 2^53 + 1 in binary: needs the 54th bit
+            n = int(head, 2)
+            body = ""
+            while n:
+                body = digs[n % radix] + body
+                n //= radix
+            for last in ("1", "0"):
+                progs.append(("parseInt-exact", WRAP % ("parseInt(%s, %d) === %s" % (json.dumps(body + "0" * k + last), radix, "(Math.pow(2, 53) + %d) * Math.pow(%d, %d)" % (2 if last == "1" else 0, radix, k + 1)))))
+    for k in (10, 300, 399, 400, 401, 1000):
+        progs.append(("parseInt-exact", WRAP % ("parseInt(%s) === Number(%s)" % (json.dumps("9007199254740993" + "0" * k + "1"), json.dumps("9007199254740993" + "0" * k + "1")))))
+        progs.append(("parseInt-exact", WRAP % ("parseInt(%s) === Number(%s)" % (json.dumps("9007199254740993" + "0" * k), json.dumps("9007199254740993" + "0" * k)))))
     return progs
 
 
